@@ -322,7 +322,13 @@ def case_model(ctx, rng, idx):
                              if kind != "metis" or walls_kind != "array" else {})
         D = gen_distances(rng, form, d0, kind)
         if kw.get("num_walls", 0) is None:
-            kw["num_walls"] = rng.integers(0, 4, size=np.shape(D))
+            shp = np.shape(D)
+            if len(shp) >= 2 and rng.random() < 0.6:
+                # wall counts given in a broadcastable shape: per row, per
+                # column or for the trailing axes only
+                alt = [shp[:-1] + (1,), (1,) * (len(shp) - 1) + shp[-1:], shp[1:]]
+                shp = alt[int(rng.integers(0, len(alt)))]
+            kw["num_walls"] = rng.integers(0, 4, size=shp)
         check_model(ctx, kind, m, twin, p, handle, D, kw, hist, form)
         if rnd == 0:
             more = apply_history(ctx, kind, m, p, rng, int(rng.integers(0, 3)))
@@ -429,7 +435,7 @@ def case_bad_antenna(ctx, rng, idx):
 
 
 GENS = {
-    "model": Gen(case_model, 2100, 210000),
+    "model": Gen(case_model, 4200, 252000),
     "antenna": Gen(case_antenna, 300, 30000),
     "bad-antenna": Gen(case_bad_antenna, 7, 7, exhaustive=True),
 }
